@@ -18,6 +18,7 @@ mod mon_c05;
 mod mon_c07;
 mod mon_c09;
 mod mon_c10;
+mod mon_c12;
 mod mon_c13;
 mod mon_c14;
 mod mon_c15;
@@ -42,6 +43,7 @@ fn main() {
         "c07" => mon_c07::run(&args),
         "c09" => mon_c09::run(&args),
         "c10" => mon_c10::run(&args),
+        "c12" => mon_c12::run(&args),
         "c13" => mon_c13::run(&args),
         "c14" => mon_c14::run(&args),
         "c15" => mon_c15::run(&args),
